@@ -200,20 +200,21 @@ func kindOfMsg(m datatransfer.Message) int {
 }
 
 type netSendCase struct {
-	id        int
-	connect   bool
-	max       int     // model value: max 1 (ceil configured)
-	cfgMax    float64 // what was configured
-	opens     []bool
-	cancel    int
-	protoOK   bool
-	writeOK   bool
-	resetOK   bool
-	closeOK   bool
-	attempts  int
-	res       int
-	ops       []int
-	delivered int
+	id          int
+	connect     bool
+	max         int     // model value: max 1 (ceil configured)
+	cfgMax      float64 // what was configured
+	opens       []bool
+	cancel      int
+	protoOK     bool
+	writeOK     bool
+	resetOK     bool
+	closeOK     bool
+	attempts    int
+	res         int
+	ops         []int
+	delivered   int
+	slowBackoff bool // the back-off between attempts is longer than the per-attempt open timeout
 }
 
 func (c netSendCase) coq() string {
@@ -306,6 +307,13 @@ func runNet(dir string, seed uint64, tier string) {
 			}
 		}
 	}
+	// the pause between two attempts may well be longer than the time one attempt is allowed to take:
+	// the remaining attempts are made all the same
+	for _, opens := range [][]bool{{false, true}, {false, false, true}, {false, false, false}} {
+		for _, connect := range []bool{false, true} {
+			addSend(netSendCase{connect: connect, max: 3, cfgMax: 3, opens: opens, protoOK: true, writeOK: true, resetOK: true, closeOK: true, slowBackoff: true})
+		}
+	}
 	// generated open patterns (a success hidden behind the attempt cap must not be reached)
 	nGen := 60
 	if tier == "thorough" {
@@ -347,7 +355,12 @@ func runNet(dir string, seed uint64, tier string) {
 		if c.cancel != 0 {
 			backoff = 120 * time.Millisecond // a cancelled context must win against the back-off timer
 		}
-		n := dtnet.NewFromLibp2pHost(h, dtnet.RetryParameters(backoff, backoff, c.cfgMax, 1), dtnet.DataTransferProtocols(protos))
+		opts := []dtnet.Option{dtnet.RetryParameters(backoff, backoff, c.cfgMax, 1), dtnet.DataTransferProtocols(protos)}
+		if c.slowBackoff {
+			opts = []dtnet.Option{dtnet.RetryParameters(120*time.Millisecond, 120*time.Millisecond, c.cfgMax, 1), dtnet.DataTransferProtocols(protos),
+				dtnet.SendMessageParameters(30*time.Millisecond, 10*time.Second)}
+		}
+		n := dtnet.NewFromLibp2pHost(h, opts...)
 		start := time.Now()
 		var err error
 		done := make(chan struct{})
